@@ -16,10 +16,10 @@ import (
 // afterwards nothing more is sent and the identifier is reusable.
 
 type c03path struct {
-	SmallPool  bool     `json:"small_id_pool"`
-	Deliveries int      `json:"deliveries"`
-	Events     []string `json:"events"`
-	FirstWriteFails bool `json:"first_transmission_write_fails"`
+	SmallPool       bool     `json:"small_id_pool"`
+	Deliveries      int      `json:"deliveries"`
+	Events          []string `json:"events"`
+	FirstWriteFails bool     `json:"first_transmission_write_fails"`
 }
 
 // static automaton used to enumerate only meaningful scripts
@@ -451,4 +451,84 @@ func asInt(v any) int {
 		return int(x)
 	}
 	return 0
+}
+
+// TestC03TimerPhase: one QoS 1 delivery to a silent subscriber for every combination of sweep-ticker
+// phase and registration time inside a second (tenths): whatever the sub-second alignment of the
+// deadline with the per-second buckets and the ticker, the delivery must be sent again.
+func TestC03TimerPhase(t *testing.T) {
+	type tp struct {
+		TickerPhaseMs int `json:"ticker_phase_ms"`
+		DelayMs       int `json:"publish_delay_ms"`
+		Qos           int32 `json:"qos"`
+	}
+	var paths []tp
+	for ph := 0; ph < 1000; ph += vk.Pick(100, 50) {
+		for d := 0; d < 1000; d += vk.Pick(100, 50) {
+			paths = append(paths, tp{ph, d, 1})
+			if vk.Thorough() || (ph/100+d/100)%3 == 0 {
+				paths = append(paths, tp{ph, d, 2})
+			}
+		}
+	}
+	RunPaths(t, "C03", "C03/timer-phase", "TestC03TimerPhase", len(paths), vk.Pick(5*time.Minute, 20*time.Minute),
+		func(t *testing.T, i int, rep *vk.Report) {
+			p := paths[i]
+			RunBubble(t, fmt.Sprintf("p%d", i), func(t *testing.T) {
+				time.Sleep(time.Duration(p.TickerPhaseMs) * time.Millisecond) // the node's ticker starts at this sub-second phase
+				w := NewWorld(t, 1)
+				defer w.Close()
+				sub := w.NewClient("sub", 1, AckNone)
+				sub.Connect(ConnectOpts{ClientID: "sub", KeepAlive: 600})
+				sub.Subscribe(1, p.Qos, "t/#")
+				pub := w.NewClient("pub", 1, AckAll)
+				pub.Connect(ConnectOpts{ClientID: "pub", KeepAlive: 600})
+				w.Step()
+				// burn identifier 0 (costs the writer a 100 ms retry) with a throw-away delivery that is acknowledged
+				pub.Publish("t/warmup", "w", 1, false, 1)
+				w.Idle(time.Second)
+				for _, pk := range sub.Publishes() {
+					if p.Qos == 1 {
+						sub.Send(&packet.PubAck{Header: &packet.Header{}, MessageId: pk.MessageId})
+					} else {
+						sub.Send(&packet.PubRec{Header: &packet.Header{}, MessageId: pk.MessageId})
+						w.Step()
+						sub.Send(&packet.PubComp{Header: &packet.Header{}, MessageId: pk.MessageId})
+					}
+				}
+				w.Step()
+				time.Sleep(time.Duration(p.DelayMs) * time.Millisecond)
+				pub.Publish("t/x", "payload", 1, false, 2)
+				w.Step()
+				count := func() int {
+					n := 0
+					for _, pk := range sub.Publishes() {
+						if string(pk.Topic) == "t/x" {
+							n++
+						}
+					}
+					return n
+				}
+				if count() != 1 {
+					rep.Violate(vk.Violation{Sig: "c03-initial-delivery-missing", Msg: fmt.Sprintf("%+v: first transmission count %d", p, count()), Replay: p})
+					return
+				}
+				w.Idle(8 * time.Second) // deadline (3 s) + sweep period + margin, twice over
+				Observe(w, rep)
+				if n := count(); n < 2 {
+					rep.Violate(vk.Violation{Sig: "c03-not-retransmitted:timer-phase", Msg: fmt.Sprintf("%+v: the unacknowledged delivery was sent %d time(s) in 8 s of silence (deadline 3 s, sweep every second)", p, n), Replay: p})
+					return
+				}
+				MarkNontrivial(fmt.Sprintf("%+v", p))
+				rep.Nontrivial++
+				if i%17 == 0 {
+					rep.Sample(p)
+				}
+			})
+		},
+		func(i int) any { return paths[i] },
+		func(rep *vk.Report) {
+			rep.Rule = "paths = sweep-ticker phase x registration time within a second, in tenths (thorough: twentieths), QoS 1 and 2: one unacknowledged delivery must be retransmitted within 8 s whatever the alignment of its deadline with the per-second buckets and the ticker"
+			rep.Floor("paths", 50, rep.Nontrivial)
+		})
 }
